@@ -109,7 +109,8 @@ func ZZH_C01_BuiltPackage() {
 	zzvAssert(ok, "ToBytes yields a readable archive")
 	zzhCheckPackage(pkg, "ToBytes")
 	if zzvBool() {
-		path := zzvFaultPath(0)
+		// a fresh path, or one that already holds a longer file
+		path := zzvFaultPath([...]int{0, 4}[zzvChoice(2)])
 		zzvAssert(d.Save(path) == nil, "Save succeeds")
 		onDisk, ok := zzhReadZipFile(path)
 		zzvAssert(ok, "Save yields a readable archive")
